@@ -1,6 +1,8 @@
 #!/bin/sh
 # sync the mutation lab with the current /verif working tree and /repo HEAD
 set -e
+# bootstrap: a scratch worktree of /repo outside /repo and /verif (remove with `git -C /repo worktree remove --force /var/tmp/lab/repo; rm -rf /var/tmp/lab`)
+[ -d /var/tmp/lab/repo ] || { mkdir -p /var/tmp/lab/verif; git -C /repo worktree add --detach /var/tmp/lab/repo HEAD; }
 rsync -a --delete --exclude harness/target --exclude harness/Cargo.toml --exclude .work --exclude replays --exclude .git --exclude evidence /verif/ /var/tmp/lab/verif/
 sed 's#path = "/repo"#path = "/var/tmp/lab/repo"#' /verif/harness/Cargo.toml > /var/tmp/lab/verif/harness/Cargo.toml
 sed -i 's#"/repo/src/#"/var/tmp/lab/repo/src/#' /var/tmp/lab/verif/harness/src/bin/*.rs
